@@ -185,14 +185,18 @@ static void body()
         bool multi = i >= 20;
         S t;
         for (size_t k = 0; k < len; ++k) { if (multi && k % 2) ref::enc_utf8(t, i >= 30 ? 0x1F600 + k : 0xE9 + k); else t += static_cast<char>('a' + k); }
-        v.text = t; v.cstr = v.text.c_str(); v.st = ST::string::from_validated(t.data(), t.size()); v.ss = t; v.sv = v.text;
-        v.u8text.assign(reinterpret_cast<const char8_t *>(t.data()), t.size()); v.u8 = v.u8text.c_str(); v.s8 = v.u8text; v.sv8 = v.u8text;
+        v.text = t; v.cstr = v.text.c_str(); v.st = ST::string::from_validated(t.data(), t.size()); v.ss = t;
+        v.svback = "<" + t + ">tail"; v.sv = std::string_view(v.svback).substr(1, t.size());
+        v.u8text.assign(reinterpret_cast<const char8_t *>(t.data()), t.size()); v.u8 = v.u8text.c_str(); v.s8 = v.u8text;
+        v.u8back = u8"<" + v.u8text + u8">tail"; v.sv8 = std::u8string_view(v.u8back).substr(1, v.u8text.size());
         std::u32string w32;
         for (long cp : ref::decode_utf8(t)) w32 += static_cast<char32_t>(cp);
         v.u32text = w32; v.wtext.assign(w32.begin(), w32.end()); v.u16text.clear();
         for (char32_t c : w32) ref::enc_utf16(v.u16text, c);
         v.wstr = v.wtext.c_str(); v.u16 = v.u16text.c_str(); v.u32 = v.u32text.c_str();
-        v.ws = v.wtext; v.s16 = v.u16text; v.s32 = v.u32text; v.wsv = v.wtext; v.sv16 = v.u16text; v.sv32 = v.u32text;
+        v.ws = v.wtext; v.s16 = v.u16text; v.s32 = v.u32text;
+        v.wback = L"<" + v.wtext + L">tail"; v.u16back = u"<" + v.u16text + u">tail"; v.u32back = U"<" + v.u32text + U">tail";
+        v.wsv = std::wstring_view(v.wback).substr(1, v.wtext.size()); v.sv16 = std::u16string_view(v.u16back).substr(1, v.u16text.size()); v.sv32 = std::u32string_view(v.u32back).substr(1, v.u32text.size());
         v.b = i % 2;
         int n = static_cast<int>(t.size());
         for (int shape : text_shapes)
